@@ -11,8 +11,14 @@ from ..common import V, samples_of
 
 NX = 6
 PROBES = np.array([-0.5, 0.0, 1e-3, 0.37, 1.0, 2.0, 2.5, 3.0, 10.0])
-SIM_OPS = {"simA", "simA'", "simE", "simB", "simC", "simD", "simA+S1", "simB+S2"}
-FAIL_OPS = {"simB+bad"}  # a simulate call that is rejected (schedule of the wrong length): must leave no trace
+SIM_OPS = {"simA", "simA'", "simE", "simB", "simC", "simD", "simA+S1", "simB+S2", "resim", "bufB"}
+# resim: simulate(obj.time) - the very array object of the stored run is passed back (same identity, same values; after a
+#        field was reassigned the run must still be recomputed);  bufB: the stored time array is used as the caller's
+#        buffer - overwritten in place with grid B's values and passed again (same identity, other values)
+ALIAS_OPS = {"resim", "bufB"}
+# simulate calls that are rejected: a schedule one entry short; a schedule of the right length whose last entry lies
+# far outside the fluid table.  Both must raise and leave no trace
+FAIL_OPS = {"simB+bad", "simB+oor"}
 SET_OPS = {"setF", "setP"}  # public dataclass fields reassigned on the live object (toggles)
 # setF: T_ship_gas changes fluid AND initial pressure; S_zdip changes the fluid only (same initial pressure: a key made
 # of all scalar fields would not notice)
@@ -47,9 +53,10 @@ def schedules(p_f, p_i, n=8):
 
 def alphabet(cls, with_set=True):
     if cls == "ideal":
-        base = ["simA", "simA'", "simE", "simB", "simC", "simD", "rf", "rf_density", "interp"]
+        base = ["simA", "simA'", "simE", "simB", "simC", "simD", "resim", "bufB", "rf", "rf_density", "interp"]
     else:
-        base = ["simA", "simA'", "simE", "simB", "simC", "simD", "simA+S1", "simB+S2", "simB+bad", "rf", "rf_density", "interp"]
+        base = ["simA", "simA'", "simE", "simB", "simC", "simD", "simA+S1", "simB+S2", "resim", "bufB", "simB+bad", "simB+oor",
+                "rf", "rf_density", "interp"]
     return base + (["setF", "setP"] if with_set else [])
 
 
@@ -85,9 +92,24 @@ def apply(obj, op, cfg):
         obj.pressure_fracface = 0.5 * cfg[2] if at_base else cfg[2]
         return ("set", obj.pressure_fracface)
     try:
-        if op in FAIL_OPS:  # grid B with a schedule that is one entry short: must be rejected and change nothing
+        if op in FAIL_OPS:  # grid B with a schedule that must be rejected and change nothing
             t = g["B"].copy()
-            obj.simulate(t, schedules(cfg[2], cfg[3], len(t))["S2"][:-1].copy())
+            sch = schedules(cfg[2], cfg[3], len(t))["S2"].copy()
+            if op == "simB+bad":
+                sch = sch[:-1]
+            else:
+                sch[-1] = 1e7  # right length, last entry far above every table's highest pressure
+            obj.simulate(t, sch)
+            return ("sim", obj.time.copy(), obj.pseudopressure.copy())
+        if op in ALIAS_OPS:
+            t = vars(obj).get("time")
+            if op == "resim":
+                t = g["A"].copy() if t is None else t
+            elif isinstance(t, np.ndarray) and t.shape == g["B"].shape and t.dtype == g["B"].dtype and t.flags.writeable:
+                t[:] = g["B"]
+            else:
+                t = g["B"].copy()
+            obj.simulate(t)
             return ("sim", obj.time.copy(), obj.pseudopressure.copy())
         if op in SIM_OPS:
             name, _, s = op.partition("+")
@@ -106,6 +128,19 @@ def apply(obj, op, cfg):
     except Exception as e:  # noqa: BLE001 - exception *types* are part of the observation
         return ("raise", type(e).__name__)
     raise KeyError(op)
+
+
+def resolve(full, k):
+    """The plain simulate op that an alias op at position k of `full` amounts to (rejected calls already removed)."""
+    op = full[k]
+    if op == "bufB":
+        return "simB"
+    if op != "resim":
+        return op
+    for o in reversed(full[:k]):
+        if o in SIM_OPS and o != "resim":
+            return "simB" if o == "bufB" else o.partition("+")[0]
+    return "simA"
 
 
 def build(hist, cfg, pre=()):
@@ -142,12 +177,13 @@ def check_transition(hist, op, cfg):
         obs_live = [apply(live, op, cfg)]  # the SAME object before and after the rejected call
         out = []
         if obs_live[-1][0] != "raise":
-            out.append(V("rejected-simulate/accepted", f"after {hist}, simulate with a schedule one entry short was accepted",
+            out.append(V("rejected-simulate/accepted", f"after {hist}, the simulate call {op} (schedule one entry short / far "
+                         "outside the table) was accepted",
                          case=case))
         elif key(live) != key_before:
             d_l = vars(live)
             changed = sorted(k_ for k_ in set(d_l) | set(d_b) if history.canon_value(d_l.get(k_)) != history.canon_value(d_b.get(k_)))
-            out.append(V("rejected-simulate/left-a-trace", f"after {hist}, the rejected simulate (schedule one entry short) "
+            out.append(V("rejected-simulate/left-a-trace", f"after {hist}, the rejected simulate ({op}) "
                          f"raised {obs_live[-1][1]} but changed the object: {changed} differ from before the call - later "
                          "results would mix two runs", case=case))
         return out
@@ -165,6 +201,8 @@ def check_transition(hist, op, cfg):
     # (interpolator calls are pure reads and are dropped) and the call under observation
     pre = [o for o in full[:k] if o in SET_OPS]  # folded into the fresh object's constructor arguments
     ref_hist = [o for i, o in enumerate(full[k:]) if i == 0 or o != "interp"]
+    if sims:
+        ref_hist[0] = resolve(full, k)  # the reference passes a new array holding the same times
     if op == "interp" and len(full) - k > 1:
         ref_hist.append(op)
     ref, obs_ref = build(ref_hist, cfg, pre)
@@ -179,7 +217,7 @@ def check_transition(hist, op, cfg):
     elif op in ("rf", "rf_density") and obs_live[-1][0] == "val":
         # a recovery value is a function of the latest simulation and the call's own arguments: earlier
         # recovery reads (with another density flag, say) must not leak into it
-        alone_hist = [o for o in full[k:-1] if o in SIM_OPS or o in SET_OPS] + [op]
+        alone_hist = [resolve(full, k + i) if o in ALIAS_OPS else o for i, o in enumerate(full[k:-1]) if o in SIM_OPS or o in SET_OPS] + [op]
         _, obs_alone = build(alone_hist, cfg, pre)
         if not obs_equal(obs_live[-1], obs_alone[-1]):
             out.append(V("stale-state/read-depends-on-earlier-read",
@@ -316,9 +354,11 @@ def explore_orders(case):
     from ..common import purity_violations  # noqa: PLC0415
 
     cfg = list(case["config"])
-    letters = ["simA", "simB", "setF", "setP", "rf"]
+    letters = ["simA", "simB", "setF", "setP", "rf", "rf_density", "interp"]
     hists = [list(h) for k in range(1, case["depth"] + 1) for h in itertools.product(letters, repeat=k)
-             if h[-1] in ("simA", "simB", "rf") and any(x.startswith("sim") for x in h)]
+             if h[-1] not in SET_OPS and any(x.startswith("sim") for x in h)
+             and not any(a in ("rf", "rf_density", "interp") and b in ("rf", "rf_density", "interp") and a == b
+                         for a, b in zip(h, h[1:]))]
     calls = [("history " + "->".join(h), "mc.props.c10:observe", (cfg, h)) for h in hists]
     # orders: forward, reverse, and every history that reassigns a field ON ITS OWN in a fresh interpreter (it is the
     # only user of its fluid / frac-face pressure, so in any joint order some other history populates global state first)
